@@ -96,9 +96,14 @@ func provOf(v reflect.Value) string {
 func provOfIface(x interface{}) string { return provOf(reflect.ValueOf(x)) }
 
 func mkVal(t int, prov string) reflect.Value {
-	if t == TI {
-		v := reflect.New(ifaceType).Elem()
+	switch t {
+	case TI, TI2:
+		v := reflect.New(typeOf(t)).Elem()
 		v.Set(reflect.ValueOf(T3{P: prov}))
+		return v
+	case TP0, TP1:
+		v := reflect.New(carrier[t-TP0])
+		v.Elem().Field(0).SetString(prov)
 		return v
 	}
 	v := reflect.New(carrier[t]).Elem()
@@ -214,7 +219,10 @@ func (w *World) rawFunc(spec FuncSpec) interface{} {
 				for i, l := range spec.Out {
 					st.Field(i + 1).Set(mkVal(l.T, outTerm(spec, i, terms)))
 				}
-				if spec.OutForm == FormPtrStruct {
+				if spec.OutForm == FormPtrStruct && spec.NilOut {
+					// a nil pointer result: the library treats it as all-zero outputs
+					res = append(res, reflect.Zero(reflect.PtrTo(structOf(spec.Out))))
+				} else if spec.OutForm == FormPtrStruct {
 					res = append(res, st.Addr())
 				} else {
 					res = append(res, st)
